@@ -168,7 +168,7 @@ def judge (kind : String) (failing ordered : Bool) (want : List String) (obs : S
         | _ => throw "missing writer log"
       if kind == "scanner" then
         match more with
-        | [w] => if w != "arity=false,true type=false,true" then throw s!"scanner accepted a wrong destination: {w}"
+        | [w] => if w != "arity=false,true type=false,true later=false,true;false,true;false,true" then throw s!"scanner accepted a wrong destination: {w}"
         | _ => throw "missing scanner checks"
       pure ()
     match check with
